@@ -93,6 +93,20 @@ def make_cases(rng, nbase):
             wd, wt, wv, wp, ws = P.wrap(pos, g, t, v, pat)
             t3.finish_case(c, g.decls() + "\n" + wd, wt, wv, ws, wp)
             cases.append(c)
+        if t == ("int", "i32"):
+            for pos, asserted in ROOT_EXPRS:
+                c = t3.Case()
+                c.id = k
+                k += 1
+                c.base, c.position, c.gen, c.ty, c.value = b, pos, g, t, v
+                c.inner_pattern = pat
+                c.form = tgen.top_form(pat)
+                c.tkind = t[0]
+                c.forms = dict(pg.forms_used)
+                c.meanings = pg.meanings_sexp()[:-1] + " " + extra + ")"
+                t3.finish_case(c, g.decls(), g.rust_type(t), g.rust_expr(v, t), tgen.sexp(v), pat)
+                c.text = asserted + ", " + pat
+                cases.append(c)
         # one reference level up (atom forms and a sample of the others): comparator = a field of type &T
         if b < N_SYSTEMATIC[0] or b % 3 == 0:
             for pos in P.REF_POSITIONS:
@@ -124,6 +138,11 @@ def make_cases(rng, nbase):
     return cases
 
 
+# how the asserted expression is WRITTEN at the root when it is a compound expression (an operator, a cast): the pattern is applied to
+# the value of the whole expression, as it would be to a field holding that value
+ROOT_EXPRS = [("root-sum", "v + 0"), ("root-cast", "v as i32"), ("root-paren-sum", "(v + 0)"), ("root-product", "v * 1"), ("root-block", "{ v }"), ("root-neg-neg", "-(-v)"), ("root-if", "if true { v } else { 0 }")]
+
+
 def run(ck):
     ck.prove(["AsModel.Theorems.C11"])
     ck.build_harness("inproc")
@@ -144,7 +163,7 @@ def run(ck):
                 nontriv.add(c.text + c.value_text)
             if rk not in ("pass", "fail"):
                 continue  # not accepted in struct-field position: the property says nothing
-            cell = "%s/%s/%s" % (P.POSITION_CLASS[pos], c.form, c.tkind if c.tkind in ("strref",) else "*")
+            cell = "%s/%s/%s" % (P.POSITION_CLASS.get(pos, "root-written-as-compound-expression"), c.form, c.tkind if c.tkind in ("strref",) else "*")
             if gk == "rejected" and c.got[2].startswith("macro-"):
                 ck.report("parse:%s/%s" % (pos, c.form), "a pattern accepted in a struct-field position is rejected by the macro's parser in another position",
                           dict(t3.describe(c), position=pos, form=c.form, field_position=t3.describe(ref), macro_error=c.got[2]))
